@@ -206,7 +206,8 @@ def h_constructors():
         given = {"a": None, "b": 0, "c": False, "d": "", "e": emp, "f": 7}
         m3 = vm.call(vm.call(g("select"), [T], {}), [], dict(given))
         got = dict(dict_items(m3.fields["kwargs"]))
-        ctx.check("Match.__call__::every-keyword-is-a-constraint-whatever-its-value", z3.BoolVal(list(got) == list(given) and all(got[k] is given[k] for k in given)), detail=repr(got))
+        ctx.check("Match.__call__::every-keyword-is-a-constraint-whatever-its-value", z3.BoolVal(sorted(got) == sorted(given) and all((got[k] is given[k]) or (isinstance(given[k], PyList) and isinstance(got[k], PyList) and got[k].items == given[k].items)
+                                                                             or (not isinstance(given[k], PyList) and type(got[k]) is type(given[k]) and got[k] == given[k]) for k in given)), detail=repr(got))
     return Harness("constructors", run, spec=Spec())
 
 
